@@ -455,6 +455,7 @@ type runOpts struct {
 	PerScn   time.Duration // generous expected upper bound for one scenario (watchdog = 50x + 60s per batch element)
 	Label    string
 	Shuffle  uint64 // != 0: seeded shuffle of the execution order (chains stay together, in order)
+	Arch386  bool   // run the children with the 32-bit build of the harness
 }
 
 // runScenarios executes all scenarios in child processes and returns results by id.
@@ -592,6 +593,9 @@ func launchChild(scns []Scn, o runOpts, label string) (got []*Res, inflight int,
 	bin := os.Getenv("VERIF_BIN")
 	if o.Race {
 		bin = os.Getenv("VERIF_BIN_RACE")
+	}
+	if o.Arch386 {
+		bin = os.Getenv("VERIF_BIN_386")
 	}
 	if bin == "" {
 		return nil, -1, "crash", "harness binary path not set (VERIF_BIN / VERIF_BIN_RACE)"
